@@ -29,10 +29,22 @@ from engine.util import calls_in, unparse
 
 ID = 'C05'
 XS = '{http://www.w3.org/2001/XMLSchema}'
-XSD_FILES = ('BICEPS_ParticipantModel.xsd', 'BICEPS_MessageModel.xsd')
+XSD_FILES = ('BICEPS_ParticipantModel.xsd', 'BICEPS_MessageModel.xsd', 'eventing.xsd', 'ws-addr.xsd',
+             'wsdd-discovery-1.1-schema-os.xsd', 'wsdd-dpws-1.1-schema-os.xsd', 'MetadataExchange.xsd')
 XSTRUCT = 'sdc11073.xml_types.xml_structure'
 DATA_MODULES = ('sdc11073.xml_types.pm_types', 'sdc11073.xml_types.msg_types', 'sdc11073.mdib.statecontainers',
-                'sdc11073.mdib.descriptorcontainers')
+                'sdc11073.mdib.descriptorcontainers', 'sdc11073.xml_types.eventing_types', 'sdc11073.xml_types.wsd_types',
+                'sdc11073.xml_types.addressing_types', 'sdc11073.xml_types.dpws_types', 'sdc11073.xml_types.mex_types')
+
+
+def _local_name(e):
+    """XML local name of a qname expression: pm.X -> 'X', wse_tag('X') / nsh.WSA.tag('X') -> 'X'."""
+    if isinstance(e, ast.Attribute):
+        return e.attr
+    if isinstance(e, ast.Call) and e.args and isinstance(e.args[0], ast.Constant) and isinstance(e.args[0].value, str) and \
+            (call_name(e) or '').endswith('tag'):
+        return e.args[0].value
+    return None
 
 
 class Xsd:
@@ -40,6 +52,7 @@ class Xsd:
         self.types = {}
         self.enums = {}
         self.attr_groups = {}
+        self.elem_type = {}
         roots = []
         for f in XSD_FILES:
             p = xsd_dir / f
@@ -59,6 +72,9 @@ class Xsd:
                 if el.get('name'):
                     for ct in el.findall(XS + 'complexType'):
                         self._collect(ct, '@' + el.get('name'))
+            for el in t.findall(XS + 'element'):
+                if el.get('name') and el.get('type'):
+                    self.elem_type.setdefault(el.get('name'), el.get('type').split(':')[-1])
             for st in t.iter(XS + 'simpleType'):
                 if st.get('name'):
                     vals = [e.get('value') for e in st.iter(XS + 'enumeration')]
@@ -118,6 +134,9 @@ def _implied(node):
     return None
 
 
+_DESCRIPTOR_NAMES = set()
+
+
 def decl_table(ci):
     out = {}
     for st in ci.node.body:
@@ -126,7 +145,8 @@ def decl_table(ci):
             tgt, val = st.targets[0].id, st.value
         elif isinstance(st, ast.AnnAssign) and isinstance(st.target, ast.Name) and st.value is not None:
             tgt, val = st.target.id, st.value
-        if tgt and isinstance(val, ast.Call) and (call_name(val) or '').endswith('Property'):
+        if tgt and isinstance(val, ast.Call) and ((call_name(val) or '').endswith('Property')
+                                                  or call_name(val) in _DESCRIPTOR_NAMES):
             out[tgt] = val
     return out
 
@@ -177,6 +197,9 @@ def run(ctx):  # noqa: C901, PLR0912, PLR0915
     ctx.rule('C05.R1', 'declarations agree with the bundled XSD: attribute names, element order, required, enums, implied values')
     ctx.rule('C05.R2', 'reader/writer pairing per descriptor; scalar values are omitted only for None')
     ctx.rule('C05.R4', 'lxml elements are copied before they are attached to output')
+    _DESCRIPTOR_NAMES.clear()
+    _DESCRIPTOR_NAMES.update(ci.name for q, ci in repo.classes.items()
+                             if f'{XSTRUCT}._XmlStructureBaseProperty' in repo.mro(q))
     xsd = Xsd(repo.src_root / 'sdc11073' / 'xsd')
     ctx.floor('C05.R1', len(xsd.types), 150, 'XSD complex types')
     ctx.floor('C05.R1', len(xsd.enums), 20, 'XSD enumerations')
@@ -194,13 +217,16 @@ def run(ctx):  # noqa: C901, PLR0912, PLR0915
         if not q.startswith(DATA_MODULES):
             continue
         nt = ci.assigns.get('NODETYPE')
-        if not isinstance(nt, ast.Attribute):
+        tname = _local_name(nt) if nt is not None else None
+        if tname is None:
             continue
-        tname = nt.attr
+        nt_name = tname
         if tname not in xsd.types and '@' + tname in xsd.types:
             tname = '@' + tname
+        if tname not in xsd.types and xsd.elem_type.get(tname) in xsd.types:
+            tname = xsd.elem_type[tname]
         if tname not in xsd.types:
-            ctx.notes.append(f'{q}: NODETYPE {nt.attr} has no complex type in the BICEPS schemas (not compared)')
+            ctx.notes.append(f'{q}: NODETYPE {nt_name} has no complex type in the bundled schemas (not compared)')
             continue
         n_cls += 1
         xattrs, xelems = xsd.flat(tname)
@@ -242,7 +268,7 @@ def run(ctx):  # noqa: C901, PLR0912, PLR0915
             else:
                 if first is None or (isinstance(first, ast.Constant) and first.value is None):
                     continue  # text / any content of the node itself
-                en = first.attr if isinstance(first, ast.Attribute) else unparse(first)
+                en = _local_name(first) or unparse(first)
                 delems.append(en)
         n_elem += len(delems)
         it = iter(xnames)
